@@ -16,7 +16,7 @@ T == Traces[tid]
 N == Len(T.keys)
 
 TraceInit == /\ tid \in 1..Len(Traces)
-             /\ RollInit(Traces[tid].op, Traces[tid].W, Traces[tid].minp)
+             /\ RollInit(Traces[tid].op, IF "long" \in DOMAIN Traces[tid] THEN 1 ELSE Traces[tid].W, Traces[tid].minp)   \* (long mode does not step the machine)
              /\ i = 0
 
 (* long mode (one group of tens of thousands of rows, every row selected, no null value): the row-by-row replay with  *)
@@ -36,10 +36,30 @@ LongDef(r) ==
     [] T.op = "sum"   -> IF r < T.minp THEN Null ELSE SumRange(T.vals, IF r > TW THEN r - TW + 1 ELSE 1, r)
     [] T.op = "max"   -> IF r < T.minp THEN Null ELSE MaxRange(T.vals, IF r > TW THEN r - TW + 1 ELSE 1, r)
     [] T.op = "min"   -> IF r < T.minp THEN Null ELSE MinRange(T.vals, IF r > TW THEN r - TW + 1 ELSE 1, r)
-LongOk == /\ T.out = "ok" /\ Len(T.res) = N /\ Len(T.vals) = N
+(* long WINDOWS (window of 2^15 rows and more): the values follow the periodic pattern v[r] = 2 if P divides r, else 1,  *)
+(* so that the window definition has a closed form (number of multiples of P in the window) and stays cheap to evaluate  *)
+IsLongWin == "period" \in DOMAIN T
+LWDef(r) ==
+  LET TW == T.W
+      P == T.period
+      lo == IF r > TW THEN r - TW ELSE 0                 \* the window is rows lo+1 .. r
+      len == r - lo
+      cnt == (r \div P) - (lo \div P)                     \* rows holding a 2
+  IN  CASE T.op = "sum"   -> IF len < T.minp THEN Null ELSE len + cnt
+        [] T.op = "max"   -> IF len < T.minp THEN Null ELSE (IF cnt > 0 THEN 2 ELSE 1)
+        [] T.op = "min"   -> IF len < T.minp THEN Null ELSE (IF len > cnt THEN 1 ELSE 2)
+        [] T.op = "shift" -> IF r <= TW THEN Null ELSE T.vals[r - TW]
+        [] T.op = "diff"  -> IF r <= TW THEN Null ELSE T.vals[r] - T.vals[r - TW]
+LongWinOk == /\ T.out = "ok" /\ Len(T.res) = N /\ Len(T.vals) = N /\ T.period > 1
+             /\ T.op \in {"shift", "diff", "sum", "max", "min"}
+             \* (a set of offending rows, not \A: TLC evaluates a quantified conjunct of an action recursively, one frame per row)
+             /\ {r \in 1..N : ~(/\ T.keys[r] = 1 /\ T.sel[r] = 1
+                                /\ T.vals[r] = (IF r % T.period = 0 THEN 2 ELSE 1)
+                                /\ T.res[r] = LWDef(r))} = {}
+LongOk == /\ ~IsLongWin /\ T.out = "ok" /\ Len(T.res) = N /\ Len(T.vals) = N
           /\ T.op \in {"shift", "diff", "sum", "max", "min"}
-          /\ \A r \in 1..N : T.keys[r] = 1 /\ T.sel[r] = 1 /\ T.res[r] = LongDef(r)
-TraceLong == /\ IsLong /\ i = 0 /\ LongOk
+          /\ {r \in 1..N : ~(T.keys[r] = 1 /\ T.sel[r] = 1 /\ T.res[r] = LongDef(r))} = {}
+TraceLong == /\ IsLong /\ i = 0 /\ (LongOk \/ (IsLongWin /\ LongWinOk))
              /\ i' = N + 1
              /\ PrintT(<<"ACCEPT", tid>>)
              /\ UNCHANGED <<rvars, tid>>
